@@ -81,7 +81,9 @@ def parseOp (l : Line) : Option Op :=
   | "from_ull" => do pure (.fromUll (← l.nat? "o") ((← l.nat? "hi") * 2 ^ 32 + (← l.nat? "lo")))
   | "from_str" => do
     -- an absent key = an argument that is not passed (trailing arguments only); `ct` (the character
-    -- type of the harness instantiation) does not enter the model: a character is its code unit value
+    -- type of the harness instantiation) does not enter the model: a character is its code unit value.
+    -- `s` of a view call = the characters of the view (an exact-size buffer); `s` of a pointer call
+    -- (`ov=cstr`) = the WHOLE allocation behind the pointer: the terminator is part of `s` when there is one
     let str ← l.natList? "s"
     let o ← l.nat? "o"
     let n? : Option Nat ← match l.pos? "n" with
